@@ -16,10 +16,18 @@ MANIFEST = dict(
          "observes exactly what it observes running alone and that no two enabled actions conflict; instantiated for "
          "libtins over a table of every variable with static storage duration that is regenerated from the source on "
          "every run (clang-14 AST: const-ness, write sites; cross-checked against the data symbols of the compiled "
-         "library) and decided as a whole (`no_shared_mutable`, `extern_calls_mt_safe`, `scan_complete`). Tied to the "
-         "code by a ThreadSanitizer build running 2/4/8/16 threads over parse/build/copy/address/reassembly/stream-"
-         "following/WEP/WPA2 workloads on thread-private objects with randomised yields; per-thread digests are compared "
-         "with the same calls run alone (three-way: implementation, model, spec oracle).",
+         "library) and decided as a whole (`no_shared_mutable`, `extern_calls_mt_safe`, `scan_complete`); registering "
+         "allocators before the threads start only changes the initial configuration (`registration_before_threads`); "
+         "a lazily built table races only in a cold process and is invisible to any dynamic detector once one call has "
+         "completed (`lazy_init_cold_race`, `lazy_init_warm_hides_race`). Tied to the code by a ThreadSanitizer build: every "
+         "concurrent run happens in a fresh forked process whose threads (k = 2/4/8/16, released by one barrier) make the "
+         "first libtins calls of that process; 22 workload kinds on thread-private objects (parse/build/copy/address/"
+         "reassembly/stream-following/WEP/WPA2 + CRC-32/FCS, TKIP, CCMP with different keys, pseudo-header checksums on "
+         "three flows per thread, address text I/O, DNS compose/decode, typed options, RadioTap field table, Dot11 dispatch, "
+         "pdu_from_flag for every tag, serialisation of every PDU class, AckTracker); registry scenarios register 0-3 user "
+         "allocators per family (ether type, IP protocol) in increasing/decreasing/mixed order before the threads start, no "
+         "parse on the registering thread; per-thread digests are compared with the same calls run alone in another "
+         "process (three-way: implementation, model, spec oracle).",
     note="Partial by nature: the theorem is about the abstract machine; that the C++ respects the footprints of the "
          "table is established by a syntactic scan (writes through aliases, inline asm or other languages are not seen) "
          "and by the TSan schedules actually run, not by a proof over the C++ memory model. Trusted: Lean kernel + "
@@ -29,10 +37,28 @@ MANIFEST = dict(
     design="DESIGN.md §6 C18")
 
 TSAN_ENV = {"TSAN_OPTIONS": "halt_on_error=0:exitcode=0:report_signal_unsafe=0:second_deadlock_stack=1"}
-KINDS = ["parse", "build", "copy", "addr", "reasm", "follow", "wep", "wpa2", "crc"]
+OLD_KINDS = ["parse", "build", "copy", "addr", "reasm", "follow", "wep", "wpa2", "crc"]
+NEW_KINDS = ["user", "flag", "fcs", "cksum", "addrio", "dns", "opts", "rtap", "dot11", "serall", "ack", "tkip", "ccmp"]
+KINDS = OLD_KINDS + NEW_KINDS
 ITERS = dict(parse=(20, 160), build=(20, 160), copy=(10, 100), addr=(20, 200), reasm=(5, 60), follow=(2, 20),
-             wep=(10, 80), wpa2=(1, 3), crc=(50, 2000))
+             wep=(10, 80), wpa2=(1, 3), crc=(50, 2000),
+             user=(20, 150), flag=(20, 200), fcs=(5, 60), cksum=(20, 150), addrio=(10, 80), dns=(10, 80), opts=(5, 40),
+             rtap=(10, 80), dot11=(21, 84), serall=(33, 99), ack=(20, 200), tkip=(1, 2), ccmp=(1, 3))
 THREAD_COUNTS = [2, 4, 8, 16]
+# what meets what at a cold start: workloads whose FIRST library call reaches the same candidate shared state
+COLD_GROUPS = {
+    "crc32-users": ["fcs", "wep", "tkip", "crc"],
+    "checksum-users": ["cksum", "build", "serall", "opts"],
+    "address-text": ["addrio", "addr", "dns"],
+    "dispatch-tables": ["flag", "user", "dot11", "rtap", "parse"],
+    "decrypters": ["ccmp", "tkip", "wep", "wpa2"],
+    "trackers": ["reasm", "follow", "ack", "copy"],
+}
+# identifiers the `user` / `flag` workloads put on the wire (harness ETH_IDS / IP_IDS); only the first four of each are
+# ever registered, the others stay unknown
+ETH_IDS = [0x88b5, 0x88b6, 0x88b7, 0x88b8]
+IP_IDS = [253, 254, 143, 200]
+REG_SCENARIOS = [(0, "none"), (1, "single"), (2, "increasing"), (2, "decreasing"), (3, "increasing"), (3, "decreasing"), (3, "mixed")]
 
 
 # ----------------------------------------------------------------------------------------- generators
@@ -60,6 +86,82 @@ def gen_case(rng, cid, k, scale=1):
             ops.append(f"w {t} {kind} {iters} {seed}")
     ops.append(f"go {rng.randrange(2**32)} {rng.choice([1, 2, 2, 3])}")
     return ops
+
+
+def cold_iters(rng, kind):
+    lo, _hi = ITERS[kind]
+    return max(1, rng.randint(lo, 2 * lo)) if kind not in ("wpa2", "tkip", "ccmp") else 1
+
+
+def w_line(rng, t, kind, iters, seed=None):
+    if kind == "crc":
+        n = rng.choice([1, 7, 64, 257, rng.randint(1, 1500)])
+        return f"w {t} crc {iters} {bytes(rng.randrange(256) for _ in range(n)).hex()}"
+    return f"w {t} {kind} {iters} {seed if seed is not None else rng.randrange(1, 2**40)}"
+
+
+def gen_cold(rng, cid, k, kinds, regs=()):
+    """One cold start: a fresh process in which nothing of libtins has run; `regs` are registered on its main thread,
+    then k threads are released by a barrier at the same instant and each one's FIRST library call is the sensitive
+    one of its workload.  One repetition: a second one in the same process would be warm."""
+    ops = [" ".join([f"case {cid}"] + [f"{fam}:{ident}" for fam, ident in regs])]
+    for t in range(k):
+        kind = kinds[t % len(kinds)] if len(kinds) > 1 else kinds[0]
+        ops.append(w_line(rng, t, kind, cold_iters(rng, kind)))
+    ops.append(f"go {rng.randrange(2**32)} 1")
+    return ops
+
+
+def reg_order(rng, ids, n, order):
+    pick = sorted(rng.sample(ids, n))
+    if order == "decreasing":
+        pick.reverse()
+    elif order == "mixed":
+        pick = rng.choice([[pick[1], pick[2], pick[0]], [pick[1], pick[0], pick[2]], [pick[2], pick[0], pick[1]], [pick[0], pick[2], pick[1]]])
+    return pick
+
+
+def gen_registry(rng, cid, k, eth_sc, ip_sc):
+    """Registry scenario: eth_sc / ip_sc = (number of user allocators, order of their identifiers) for the ether type
+    registry (EthernetII/SNAP/SLL/Dot1Q share it) and the IP protocol registry (IP/IPv6 share it).  Registration happens
+    before the threads start, and nothing is parsed on the registering thread afterwards."""
+    e = [("eth", i) for i in reg_order(rng, ETH_IDS, *eth_sc)]
+    p = [("ip", i) for i in reg_order(rng, IP_IDS, *ip_sc)]
+    regs = []
+    if rng.random() < 0.5:          # the two families interleaved (each keeps its own order)
+        while e or p:
+            src = e if (e and (not p or rng.random() < 0.5)) else p
+            regs.append(src.pop(0))
+    else:
+        regs = e + p
+    kinds = ["user"] * max(2, k - k // 4) + [rng.choice(["flag", "parse", "copy"]) for _ in range(k // 4)]
+    kinds = kinds[:k]
+    rng.shuffle(kinds)
+    # the registrations travel on the case line: the minimiser never drops it, so `alone=` digests stay valid
+    ops = [" ".join([f"case {cid}"] + [f"{fam}:{ident}" for fam, ident in regs])]
+    for t, kind in enumerate(kinds):
+        ops.append(w_line(rng, t, kind, cold_iters(rng, kind)))
+    ops.append(f"go {rng.randrange(2**32)} 1")
+    return ops
+
+
+def gen_cold_suite(rng, cid0, tier):
+    """Every workload kind alone at every k, every group mixed at every k, every registry scenario at every k."""
+    ops, cid, plan = [], cid0, {"homogeneous": 0, "groups": 0, "registry": 0}
+    rounds = 3 if tier == "quick" else 12
+    for _ in range(rounds):
+        for kind in KINDS:
+            for k in THREAD_COUNTS:
+                cid += 1; ops += gen_cold(rng, cid, k, [kind]); plan["homogeneous"] += 1
+        for _name, kinds in sorted(COLD_GROUPS.items()):
+            for k in THREAD_COUNTS:
+                ks = list(kinds); rng.shuffle(ks)
+                cid += 1; ops += gen_cold(rng, cid, k, ks); plan["groups"] += 1
+        for k in THREAD_COUNTS:
+            shift = rng.randrange(len(REG_SCENARIOS))
+            for i, esc in enumerate(REG_SCENARIOS):
+                cid += 1; ops += gen_registry(rng, cid, k, esc, REG_SCENARIOS[(i + shift) % len(REG_SCENARIOS)]); plan["registry"] += 1
+    return ops, cid, plan
 
 
 ALONE_ENV = {"ASAN_OPTIONS": "detect_leaks=0:abort_on_error=0:exitcode=99:allocator_may_return_null=1",
@@ -122,6 +224,10 @@ def classify(op, impl):
     w = op.split(" ")
     if w[0] == "w":
         return "w:" + w[2]
+    if w[0] == "reg":
+        return "reg:" + w[1]
+    if w[0] == "case":
+        return f"case:registered eth={sum(1 for x in w[2:] if x.startswith('eth:'))} ip={sum(1 for x in w[2:] if x.startswith('ip:'))}"
     if w[0] == "go":
         n = 0 if "conc=- " in impl else impl.split(" ")[1].count(",") + 1 if impl.startswith("go conc=") else -1
         return f"go:threads={n}"
@@ -216,6 +322,11 @@ def run(chk):
     dropped = {}
     cid = 0
     batches = 1 if chk.tier == "quick" else 10
+    # cold starts first: one forked process per case, threads released together, one repetition
+    cold_ops, cid, cold_plan = gen_cold_suite(rng, cid, chk.tier)
+    cold_ops, _ = with_alone(exe_alone, cold_ops, dropped)
+    total += corr.correspond(chk, AREA, exe, cold_ops, case_start=("case",), classify=classify, sig_of=sig_of, env=TSAN_ENV)
+    n_go = sum(1 for o in cold_ops if o.startswith("go "))
     for b in range(batches):
         ops = []
         for k in THREAD_COUNTS:
@@ -223,6 +334,7 @@ def run(chk):
                 cid += 1
                 ops += gen_case(rng, cid, k, scale)
         ops, _ = with_alone(exe_alone, ops, dropped)
+        n_go += sum(1 for o in ops if o.startswith("go "))
         total += corr.correspond(chk, AREA, exe, ops, case_start=("case",), classify=classify, sig_of=sig_of, env=TSAN_ENV)
     found = total.get("spec", 0) + total.get("fault", 0)
     if problems and not found:
@@ -242,6 +354,9 @@ def run(chk):
                     else:
                         ops.append(f"w {t} {kind} {hi} {seed if rep == 0 else srng.randrange(1, 2**40)}")
                 ops.append(f"go {srng.randrange(2**32)} 4")
+        for _ in range(5):      # and the whole cold suite again, five more times (a cold race needs the first calls to meet)
+            more, cid, _ = gen_cold_suite(srng, cid, "quick")
+            ops += more
         ops, _ = with_alone(exe_alone, ops, dropped)
         total += corr.correspond(chk, AREA, exe, ops, case_start=("case",), classify=classify, sig_of=sig_of, env=TSAN_ENV)
         found = total.get("spec", 0) + total.get("fault", 0)
@@ -256,16 +371,29 @@ def run(chk):
                 detail = "translator could not account for: " + "; ".join(unparsed)[:800] + " | " + detail
             chk.violation("proof obligation no longer checks: " + detail, ["theorem-or-audit-failure", p[:4000]], nofail=True)
     # what the workloads exercise (evidence)
-    stat_ops = [f"stat {k} {ITERS[k][1]} {chk.seed}" for k in KINDS if k != "crc"]
+    stat_ops = ["case 0", f"reg eth {ETH_IDS[2]}", f"reg eth {ETH_IDS[1]}", f"reg ip {IP_IDS[1]}", f"reg ip {IP_IDS[0]}"] + \
+               [f"stat {k} {ITERS[k][1]} {chk.seed}" for k in KINDS if k != "crc"]
     sres, _ = core.run_harness_lines(exe, ["alone"], stat_ops, env=TSAN_ENV)
-    chk.extra["workload_coverage"] = {o.split(" ")[1]: " ".join(r.split(" ")[2:]) for o, r in zip(stat_ops, sres)}
+    chk.extra["workload_coverage"] = {o.split(" ")[1]: " ".join(r.split(" ")[2:]) for o, r in zip(stat_ops, sres) if o.startswith("stat ")}
+    chk.extra["workloads"] = KINDS
+    chk.extra["cold_starts"] = {
+        "processes_in_which_the_threads_made_the_first_libtins_calls": n_go,
+        "of_which_dedicated_cold_cases": cold_plan,
+        "cold_groups": COLD_GROUPS,
+        "registry_scenarios_per_family": [f"{n}:{o}" for n, o in REG_SCENARIOS],
+        "registry_identifiers": {"eth": ETH_IDS, "ip": IP_IDS},
+        "rule": "every `go` runs in a forked child of a parent that never executes libtins code; registrations happen on the child's main "
+                "thread before the threads are created, nothing is parsed there; the run-alone reference digests come from another "
+                "process (ASan/UBSan build); the `seq=` re-run inside the child happens AFTER the threads were joined",
+    }
     chk.extra["workloads_excluded_because_their_run_alone_execution_faulted_under_asan_ubsan"] = \
         {k: dict(sorted(v.items())) for k, v in sorted(dropped.items())}
     chk.extra["thread_counts"] = THREAD_COUNTS
     chk.extra["modelled_not_proved"] = [
         "that the C++ functions respect the footprints of the generated table (syntactic scan + TSan runs)",
     ]
-    chk.cov["rule"] = ("case = k in {2,4,8,16} workloads (kind, iterations, seed) on thread-private objects, run alone and then "
+    chk.cov["rule"] = ("cold case = fresh process, optional allocator registrations, k in {2,4,8,16} small workloads released together, 1 repetition; "
+                       "mixed case = k in {2,4,8,16} workloads (kind, iterations, seed) on thread-private objects, run alone and then "
                        "concurrently 1-3 times with seeded random yields under ThreadSanitizer; distinct_nontrivial counts "
                        "distinct (operation, implementation result) pairs")
     chk.assumptions += [
@@ -277,6 +405,11 @@ def run(chk):
         "libstdc++ containers/strings/streams are race-free on distinct objects ([res.on.data.races]); operator new/delete are thread-safe",
         "hypothesis: the run-alone execution of a workload is memory-safe and UB-free (ASan/UBSan build); workloads that are not are excluded and counted (that is C01's property)",
         "TSan detects happens-before races among accesses it instruments (libtins and harness code; uninstrumented libcrypto/libpcap internals are not seen)",
+        "TSan judges only the schedules that were executed: a race needs both accesses to be executed without a happens-before edge in one of the runs (they need not collide in time, but must be close enough for the detector's bounded access history, see below); state that is touched only on a path no workload executes, or only under a registration history / key pattern no scenario produces, is seen by the static-variable table alone",
+        "a cold-start race is visible only in the first overlapping calls of a process: the quick tier gives each (workload kind, k), each cold group x k and each registry scenario x k three cold processes per run (500 cold processes with the 80 mixed cases); thread start-up skew (16 threads released by one barrier on a shared machine) may let one thread finish a lazy initialisation before the next one arrives, in which case TSan still reports it only if the later reads are not ordered after it (they are not: the barrier precedes both)",
+        "TSan's shadow memory remembers the last four accesses to an 8-byte word: the one racing write of a lazy initialisation is forgotten after a few further accesses to the same word, so it is reported only if another thread's first call arrives within a few calls of it (observed with seeded/C18f on 4 slow-starting threads: no report) — hence the spinning barrier, the sensitive call first in every workload, and hundreds of cold processes per run instead of long warm runs",
+        "wrong-value manifestations (digest mismatch without a race report) need the accesses to actually collide; they are opportunistic, the race report is the primary signal",
+        "TSan suppressions: none are used; no report from libstdc++ / libcrypto internals occurs on the unchanged tree",
     ]
     chk.trusted += ["translator/gen_staticvars.py (clang-14 JSON AST + nm cross-check)",
                     "correspondence harness harness/c18_threads.cpp + generators in checks/C18.py",
@@ -303,8 +436,14 @@ def replay(path):
     ops, _ = with_alone(exe_alone, strip_alone(ops), excluded)     # run-alone digests of the tree being replayed on
     if excluded:
         print("workloads whose run-alone execution faults under ASan/UBSan (outside C18's hypothesis):", excluded)
-    impl, mod, spec, faults = corr.evaluate(AREA, exe, ops, ("case",), env=TSAN_ENV)
-    bad = corr.first_problem(ops, impl, mod, spec)
+    # a race (and a wrong value caused by one) depends on the schedule: the replay is repeated until it shows
+    bad = None
+    for attempt in range(12):
+        impl, mod, spec, faults = corr.evaluate(AREA, exe, ops, ("case",), env=TSAN_ENV)
+        bad = corr.first_problem(ops, impl, mod, spec)
+        if bad:
+            print(f"(reproduced at attempt {attempt + 1} of 12)")
+            break
     for o, a, b, c in zip(ops, impl, mod, spec):
         print(o[:200]); print("  impl :", a[:400]); print("  model:", b[:400]); print("  spec :", c)
     if bad:
